@@ -13,6 +13,7 @@ NOT proved here (validated statistically by the harness, listed as `UNPROVED` in
 rejection sampler.
 -/
 import DPL.Proofs.SamplersLaws
+import DPL.Proofs.SamplersBern
 
 namespace DPL.C03
 open DPL DPL.Smp MeasureTheory Set
@@ -216,6 +217,25 @@ theorem discrete_gauss_law (tau sigma2 : ℝ) (hs : sigma2 ≠ 0) (k : Nat) :
     rw [← Real.exp_add, ← Real.exp_add]; congr 1; linarith
   calc _ = (1 - Real.exp (-tau)) * (1 / 2) * (Real.exp (-(tau * k)) * Real.exp (-cksGamma tau sigma2 k)) := by ring
     _ = _ := by rw [this]; ring
+
+/-- `bernoulli_neg_exp(γ)`, γ ≤ 1: (i) the loop stops with counter `n+1` exactly on the streams that start with `n`
+successful comparisons followed by a failed one (`bernCount_stops`), (ii) with every comparison `u ≤ γ/j` a
+Bernoulli(γ/j) branch (`threshold_le_law`) that event has probability `stopAt γ n = ∏_{j≤n} γ/j · (1 − γ/(n+1))`, and
+(iii) the function returns `counter % 2 = 1` iff `n` is even, and those probabilities sum to `e^{−γ}` -/
+theorem bernoulli_neg_exp_law (γ : ℝ) :
+    (∀ (succ : List ℝ) (fuel : Nat) (f : ℝ) (rest : List ℝ), succ.length < fuel →
+      (∀ i (h : i < succ.length), succ[i] ≤ γ / ((1 + i : Nat) : ℝ)) → ¬ f ≤ γ / ((1 + succ.length : Nat) : ℝ) →
+      bernCount γ fuel 1 (succ ++ f :: rest) = some (1 + succ.length, rest)) ∧
+    (∀ n : ℕ, stopAt γ n = (∏ j ∈ Finset.range n, γ / ((j : ℝ) + 1)) * (1 - γ / ((n : ℝ) + 1))) ∧
+    HasSum (fun m : ℕ => stopAt γ (2 * m)) (Real.exp (-γ)) :=
+  ⟨fun succ fuel f rest h1 h2 h3 => bernCount_stops γ succ 1 fuel f rest h1 h2 h3, stopAt_eq_prod γ, stopAt_even_hasSum γ⟩
+
+/-- non-vacuity: a stream with one success and one failure at γ = 1/2 stops with counter 2 (returns 0) -/
+example : bernCount (1 / 2 : ℝ) 10 1 [1 / 4, 1 / 2, 7] = some (2, [7]) := by
+  norm_num [bernCount]
+
+/-- non-vacuity of `uniform_law`'s hypotheses -/
+example : -((1 : ℝ) / (1 / 2) / 2) ≤ 0 ∧ (0 : ℝ) < 1 / (1 / 2) / 2 := by norm_num
 
 /-! ### 5. staircase: the sign/geometric/uniform/binary combination is the staircase mixture -/
 
